@@ -36,7 +36,7 @@ RULE = ('program trees of depth 0..4 (balanced and unbalanced, repetition counts
         'partial unrolling, neighbour unrolling, rejections); mode auto / single / advanced; wrong tuple lengths.  '
         'Half of the programs are built through create_program of Sequence/Repetition templates.  Thorough tier adds '
         'all trees with <= 4 nodes x repetition counts {1,2,3} x limits {1,2,3} and all trees with <= 3 nodes x counts '
-        '{1,2} x every volatile subset x limits.  Plus ten DETERMINISTIC families (c16_families.py), one per input class '
+        '{1,2} x every volatile subset x limits.  Plus 14 DETERMINISTIC families (c16_families.py), one per input class '
         'the random stream is blind to: a once-played short table next to a repeated one (limits on the boundaries of '
         'every neighbour test); one long piece + one piece of 16..176 samples / not a multiple of 16, at every position, '
         'incl. never-played bad waveforms; X,Y,X / X,Y,Z,Y,X table and waveform patterns; marker levels (negative, '
@@ -44,7 +44,11 @@ RULE = ('program trees of depth 0..4 (balanced and unbalanced, repetition counts
         'transformation / source (same source twice, crosswise); None outputs with both markers; sample rates that '
         'put the length on 192, multiples of 16 and one step beside (rates 2..1/8, 3, 3/2, 3/4, 5/4, 5); the SAME Loop '
         'compiled twice (read back after the first compilation); falsy channel ids (0), swap mapping, linearly mixed '
-        'channels (TransformingWaveform), measurements=[].  Non-trivial = accepted program '
+        'channels (TransformingWaveform), measurements=[]; round 4: one source id on both outputs with different amplitude / '
+        'offset / transformation; repeated pieces with the limits between #distinct and #entries (single, auto, advanced); '
+        'float durations a hair beside an integer sample count (inside / outside the 1e-10 tolerance, a piece that rounds to 0); '
+        'measurements on a node and its single child; the compiled-twice family and 10 % of the random direct builds '
+        'also with VOLATILE counts (property terms read back from the Loop).  Non-trivial = accepted program '
         'with more than one table entry or a restructured tree; distinct = canonical JSON of the case.')
 TRUSTED = [
     'Coq 8.16.1 kernel + vm_compute (no native_compute)',
@@ -52,14 +56,16 @@ TRUSTED = [
     'Waveform.__eq__/__hash__ after get_subset_for_channels: its equality classes are an INPUT of the model (wf_cls)',
     'Waveform.get_sampled of Table/Constant/MultiChannel waveforms (C08): the specification uses samples computed by the harness from the table entries',
     'translate/py2gallina_c16.py: the declared observations (python expression -> variable) and the collection of tests in source order; the actions between the tests (what a branch does to the Loop objects) are tied by the correspondence check only',
-    'harness: generators, exact float->rational conversion, Gallina printers, run-length encoding, memoised samples; for the "compiled twice" family the tree is read back from the Loop by waveform identity',
+    'harness: generators, exact float->rational conversion, Gallina printers, run-length encoding, memoised samples; for the "compiled twice" family the tree is read back from the Loop by waveform identity and the volatile counts by the structure of their expression / scope (vprop_of)',
+    'translate/py2gallina_c16.py FuncStateTranslator: the schema (which locals are mutable state and their types; Loop observations .repetition_definition = (count, property), _get_used_waveform = class lookup; OrderedDict = association list in insertion order as defined in coq/C16/GenLibParse.v)',
+    'near-integer piece lengths: the exact duration of the waveform object is read from the implementation (input of the model, like the equality classes); whether it is within the 1e-10 tolerance of its nominal sample count is decided by the harness with exact fractions, and then the piece is specified as that many samples',
     'MappingPT / build_waveform channel mapping and TransformingWaveform(LinearTransformation) are sampled by qupulse; the specification side uses the harness\' own samples (linear combinations computed exactly)',
     'the instrument driver hardware/awgs/tabor.py is not importable offline; its table layout (idle table first, numbers + 1) is re-created by the harness for PlottableProgram',
 ]
 ASSUMPTIONS = [
     'repetition counts >= 0 (count 0 only in directly built trees: create_program drops such repetitions), volatile counts = flag + current value (what an update does is C15), parent indices of the Loop tree are consistent (no prior reverse_inplace)',
     'voltage transformations are affine maps with dyadic coefficients; amplitude > 0',
-    'every leaf defines all assigned channels; leaf lengths are exact integers or clearly non-integers (no length within the 1e-10 tolerance of an integer)',
+    'every leaf defines all assigned channels; C16_plays assumes leaf lengths that are exact integers (lengths within the 1e-10 tolerance of an integer are covered by the correspondence check and the replay oracle only: family near_integer)',
 ]
 
 GEN_FILE = os.path.join(vlib.COQ, 'C16', 'Gen_tabor.v')
@@ -106,6 +112,7 @@ GEN_SPEC += [
 ]
 
 
+GEN_FILE_PARSE = os.path.join(vlib.COQ, 'C16', 'Gen_parse.v')
 GEN_FILE_LOOP = os.path.join(vlib.COQ, 'C16', 'Gen_loop.v')
 GEN_SPEC_LOOP = [
     ('Loop.flatten_and_balance', [
@@ -113,6 +120,10 @@ GEN_SPEC_LOOP = [
         ('sub_program.is_balanced()', 'bal', 'bool'),
         ('sub_program._has_single_child_that_can_be_merged()', 'mergeable', 'bool'),
         ('sub_program.is_leaf()', 'leaf', 'bool')], 6),
+    ('Loop.split_one_child', [
+        ('child_index is not None', 'ci_given', 'bool'), ('child_index is None', 'ci_none', 'bool'), ('child_index', 'ci', 'Z'),
+        ('self[child_index].repetition_count', 'rat', 'Z'), ('self[child_index].volatile_repetition', 'volat', 'bool'),
+        ('child.repetition_count', 'cr', 'Z'), ('child.volatile_repetition', 'cvol', 'bool')], 8),
     ('Loop._has_single_child_that_can_be_merged!returns', [
         ('len(self)', 'n', 'Z'), ('self._measurements', 'meas', 'bool'), ('child.repetition_count', 'cr', 'Z'),
         ('child.volatile_repetition', 'cvol', 'bool')], 3),
@@ -132,6 +143,14 @@ def pregen(ctx):
             out.append({'name': ob, 'ok': True, 'detail': 'translated (%d tests)' % sum(n for _, _, n in spec)})
         except Exception as e:   # Unsupported, SyntaxError, ...
             out.append({'name': ob, 'ok': False, 'detail': 'translator refused the current source: %s' % e})
+    # the bookkeeping of the two parsers, statement by statement (FuncStateTranslator)
+    rel = 'qupulse/_program/tabor.py'
+    ob = 'translate:%s::statements(parse_aseq_program,parse_single_seq_program)' % rel
+    try:
+        vlib.write_if_changed(GEN_FILE_PARSE, py2gallina_c16.translate_parsers(os.path.join(vlib.REPO, rel)) + '\n')
+        out.append({'name': ob, 'ok': True, 'detail': 'translated (2 functions, 3 loops)'})
+    except Exception as e:
+        out.append({'name': ob, 'ok': False, 'detail': 'translator refused the current source: %s' % e})
     return out
 
 
@@ -370,7 +389,7 @@ def gen_prog_case(rng, tier, force=None):
         tree = zeroify(tree, rng, rng.choice([0.15, 0.3]))      # repetition count 0 (what a volatile count can be)
     case = {'kind': 'prog', 'rate': str(rate), 'defined': defined, 'wfs': wfs, 'tree': tree, 'cfg': cfg,
             'build': build, 'ntuple': nch}
-    if build == 'direct' and not any_vol(tree) and nch is None and rng.random() < 0.1:
+    if build == 'direct' and nch is None and rng.random() < 0.1:
         # stateful: the same Loop object was compiled before with other limits / another mode (result ignored)
         mn1 = rng.choice([1, 2, 3, 4, 6])
         case['first'] = {'min': mn1, 'max': rng.choice([mn1, mn1 + 1, mn1 + 3, 16]),
@@ -423,7 +442,7 @@ def clean_case(tree, mn, mx, mode=None):
 
 def gen_cases(rng, tier, ctx):
     cases = []
-    n = 220 if tier == 'quick' else 6000
+    n = 180 if tier == 'quick' else 6000
     for _ in range(n):
         cases.append(gen_prog_case(rng, tier))
     # targeted: small limits around hand-picked restructuring situations
@@ -566,13 +585,16 @@ def build_template(desc, rate, rename=None):
     chans = desc['chans'] if rename is None else {rename(k): e for k, e in desc['chans'].items()}
     const = all(len(e) == 2 and e[0][1] == e[1][1] for e in chans.values())
     dur = F(desc['len']) / rate
+    # 'eps': the piece is a float hair longer / shorter than len samples (get_waveform_length has a tolerance of 1e-10)
+    end = float(F(desc['len']) + F(desc['eps'])) / float(rate) if desc.get('eps') else _num(dur)
     if const and desc.get('pt') == 'const':
-        return ConstantPT(_num(dur), {k: _num(e[0][1]) for k, e in chans.items()})
+        return ConstantPT(end, {k: _num(e[0][1]) for k, e in chans.items()})
     table = {}
     for k, ent in chans.items():
         rows = [(0, _num(ent[0][1]))]
-        for e in ent[1:]:
+        for e in ent[1:-1]:
             rows.append((_num(F(e[0]) / rate), _num(e[1]), e[2]))
+        rows.append((end, _num(ent[-1][1]), ent[-1][2]))
         table[k] = rows
     return TablePT(table)
 
@@ -631,11 +653,36 @@ def read_tree(loop, order_iter, vol_ids):
     return [int(loop.repetition_count), bool(loop._measurements), next(order_iter), []] + vol
 
 
+def vprop_of(expression, scope):
+    """the volatile property of a VolatileRepetitionCount (expression over its scope) as the model's term: ['id', k, i] =
+    k * vol<i>, ['op', k, p, c] = k * (parent count p * child count c) (Loop._merge_single_child of two volatile counts);
+    the operands of an operation are recovered from the JointScope it was built with"""
+    e = expression.underlying_expression
+    if e == 0:
+        return ['id', 0, 0]
+    k, rest = e.as_coeff_Mul()
+    if int(k) != k:
+        raise ValueError('volatile count with a non-integer factor: %s' % e)
+    names = sorted(str(x) for x in rest.free_symbols)
+    if names == ['child_repetition_count', 'parent_repetition_count'] and hasattr(scope, '_lookup'):
+        ops = []
+        for nme in ('parent_repetition_count', 'child_repetition_count'):
+            ms = scope._lookup[nme]
+            ops.append(vprop_of(ms._mapping[nme], ms._scope))
+        if rest != rest.func(*rest.free_symbols):
+            raise ValueError('unexpected operation expression: %s' % e)
+        return ['op', int(k), ops[0], ops[1]]
+    if len(names) == 1 and names[0].startswith('vol') and str(rest) == names[0]:
+        return ['id', int(k), int(names[0][3:])]
+    raise ValueError('unexpected volatile expression: %s' % e)
+
+
 def read_back(loop, wid, vol_ids):
     """the tree of a directly built Loop as it is NOW (after an earlier compilation restructured it in place);
-    waveforms are recognised by object identity"""
+    waveforms are recognised by object identity, volatile counts are read back as the model's property terms"""
     vp = loop.volatile_repetition
-    vol = [vol_ids.setdefault(vp, 1000 + len(vol_ids))] if vp is not None else []
+    rd = loop.repetition_definition
+    vol = [vprop_of(rd._expression, rd._scope)] if vp is not None else []
     ch = [read_back(c, wid, vol_ids) for c in loop]
     return [int(loop.repetition_count), bool(loop._measurements),
             None if ch else wid.get(id(loop.waveform)), ch] + vol
@@ -707,7 +754,7 @@ def _run_impl(case):
             return {'crash': 'harness: template read-back mismatch (%d leaves for %d atoms)' % (len(lv), len(order))}
         tree = read_tree(prog, iter(order), {})
         for leaf, w in zip(lv, order):
-            if vlib.to_fraction(leaf.waveform.duration) * rate != F(case['wfs'][w]['len']):
+            if not case['wfs'][w].get('eps') and vlib.to_fraction(leaf.waveform.duration) * rate != F(case['wfs'][w]['len']):
                 return {'crash': 'harness: template read-back mismatch (leaf duration)'}
         leaf_wf = {}
         for leaf, w in zip(lv, order):
@@ -770,6 +817,10 @@ def _run_impl(case):
         else:
             cls.append(1000 + w)
     obs = {'tree': tree, 'cls': cls}
+    if any(d.get('eps') for d in case['wfs']):
+        # the exact length in samples of the waveform objects (the float duration went through TimeType.from_float)
+        obs['wlen'] = [str(vlib.to_fraction(leaf_wf[w].duration) * rate) if w in leaf_wf
+                       else str(F(case['wfs'][w]['len']) + F(case['wfs'][w].get('eps') or 0)) for w in range(len(case['wfs']))]
     if first_changed:
         obs['first_changed'] = first_changed
     try:
@@ -843,6 +894,21 @@ def _run_impl(case):
             for s, n in zip(segs, lens):
                 if s.num_points != int(n) or int(n) < 192 or int(n) % 16:
                     why = 'segment of %d points (reported %d) violates the device limits' % (s.num_points, int(n))
+        if why is None:
+            # the packing kernel on its own: an unassigned output / marker passed as None (the default fill of
+            # TaborSegment.from_sampled) must give the same uploaded words as the explicit 8192 / False arrays that
+            # TaborProgram passes, and the words must survive from_binary_data
+            for s, b in zip(segs, bins):
+                again = TaborSegment.from_sampled(None if cfg['channels'][0] is None else s.ch_a,
+                                                  None if cfg['channels'][1] is None else s.ch_b,
+                                                  None if cfg['markers'][0] is None else s.marker_a,
+                                                  None if cfg['markers'][1] is None else s.marker_b) \
+                    if any(c is not None for c in cfg['channels'] + cfg['markers']) else s
+                back = TaborSegment.from_binary_data(s.data_a, s.data_b)
+                if not np.array_equal(np.array(again.get_as_binary()), b) or not np.array_equal(np.array(back.get_as_binary()), b) \
+                        or again != s or hash(back) != hash(s):
+                    why = 'TaborSegment.from_sampled with None for the unassigned outputs / from_binary_data gives other words'
+                    break
     except Exception as e:
         why = 'replay oracle failed: %s: %s' % (type(e).__name__, e)
     obs['py_plays'] = why
@@ -861,12 +927,21 @@ def g_tree(t, counter=None):
     meas = meas is True          # 'empty' = measurements declared as an empty list: no measurement
     if t_vol(t):
         counter[0] += 1
-        vid = counter[0] if t[4] is True else int(t[4])
-        meta = '(Build_nmeta %s (Some (VId 1 %s)))' % (gbool(meas), gZ(vid))
+        if isinstance(t[4], list):          # a property term read back from the Loop object
+            meta = '(Build_nmeta %s (Some %s))' % (gbool(meas), g_vprop(t[4]))
+        else:
+            vid = counter[0] if t[4] is True else int(t[4])
+            meta = '(Build_nmeta %s (Some (VId 1 %s)))' % (gbool(meas), gZ(vid))
     else:
         meta = 'plain' if not meas else '(Build_nmeta true None)'
     return '(Loop %s %s %s %s)' % (gZ(rep), meta, 'None' if w is None else '(Some %d%%nat)' % w,
                                    glist(lambda c: g_tree(c, counter), ch))
+
+
+def g_vprop(v):
+    if v[0] == 'id':
+        return '(VId %s %s)' % (gZ(v[1]), gZ(v[2]))
+    return '(VOp %s %s %s)' % (gZ(v[1]), g_vprop(v[2]), g_vprop(v[3]))
 
 
 def g_chan(c):
@@ -885,12 +960,21 @@ def g_cfg(case, cfg=None):
         gZ(cfg['min']), gZ(cfg['max']), mode)
 
 
-def g_wf(d, cls):
+TOLERANCE = F(1e-10)     # the float, exactly
+
+
+def g_wf(d, cls, wlen=None):
     ln = F(d['len'])
-    n = int(ln) if ln.denominator == 1 else int(round(ln))
+    if d.get('eps') and wlen is not None:
+        # a piece within get_waveform_length's tolerance of its nominal sample count is SPECIFIED as that many samples
+        # (decided here, with exact fractions, not by the implementation); outside the tolerance the exact length is given
+        exact = F(wlen)
+        if abs(exact - ln) > TOLERANCE:
+            return g_wf(dict(d, len=str(exact), eps=None, n=int(ln)), cls)
+    n = d['n'] if d.get('n') is not None else (int(ln) if ln.denominator == 1 else int(round(ln)))
     data = []
     for k in desc_channels(d):
-        s = rle(desc_samples(d, k, n if ln.denominator == 1 else int(ln)))
+        s = rle(desc_samples(d, k, n if (ln.denominator == 1 or d.get('n') is not None) else int(ln)))
         data.append('(%s, %s)' % (gZ(CH_ID[k]), glist(lambda p: '(%s, %s)' % (gQ(p[0]), gZ(p[1])), s)))
     return '(mk_wf %s %s %s [%s])' % (gZ(cls), gQ(ln), gZ(n), '; '.join(data))
 
@@ -908,7 +992,7 @@ def to_coq(case, obs):
                                                   glist(g_pairs, o['seqs']), g_pairs(o['adv']), gbool(o['advanced']))
     else:
         impl = 'None'
-    tbl = glist(lambda wc: g_wf(*wc), list(zip(case['wfs'], obs['cls'])))
+    tbl = glist(lambda wc: g_wf(*wc), list(zip(case['wfs'], obs['cls'], obs.get('wlen') or [None] * len(case['wfs']))))
     if case.get('first') is not None:
         # compiled twice: first configuration, second configuration, the tree as built, the tree read back from the Loop
         return '(CTwice %s %s %s %s %s %s)' % (g_cfg(case, dict(case['cfg'], **case['first'])), g_cfg(case), tbl,
@@ -1142,17 +1226,24 @@ MANIFEST = {
                   'raised; left_behind) is in the input domain again and plays the same leaves, so an accepted second '
                   'compilation with any configuration plays the ORIGINAL specification (C16_recompile_plays_any); the '
                   'executable model of the in-place effect (tree_after) is compared with the real Loop object.  '
-                  'Source tie: the 45 if / elif / while / assert tests (and predicate results) of _check_merge_with_next, '
+                  'Source tie: the 53 if / elif / while / assert tests (and predicate results) of _check_merge_with_next, '
                   '_check_partial_unroll, prepare_program_for_advanced_sequence_mode, _calc_sampled_segments, '
                   'TaborProgram.__init__, setup_single / setup_advanced_sequence_mode (tabor.py), '
                   'Loop.flatten_and_balance and Loop._has_single_child_that_can_be_merged (loop.py) are '
                   'translated from the current source on every run (translate/py2gallina_c16.py, fail-closed) and the '
                   'model functions are proved equal to skeletons that take all their decisions from the translated '
-                  'tests (C16_source_*).  C16_spec_cached_eq: the '
+                  'tests (C16_source_*).  ROUND 4: the BOOKKEEPING of parse_aseq_program and parse_single_seq_program is '
+                  'translated statement by statement (FuncStateTranslator: mutable locals -> a record threaded through one '
+                  'Fixpoint per for loop, OrderedDict -> association list) and proved equal to the model parsers on every '
+                  'input incl. the error cases (C16_source_parse_aseq, C16_source_parse_single, all jump flags 0); '
+                  'Loop.split_one_child: the model choice of the child is the reverse scan of the source with break and '
+                  'for-else over its generated tests (C16_source_split_one_child).  C16_spec_cached_eq: the '
                   'evaluation form of the specification used by the check equals the specification.  Tie to /repo: '
                   'exact correspondence check (segments as uploaded binary, tables, mode, accept/reject) and the '
-                  'specification evaluated by Coq on the implementation\'s tables on every case, random stream + ten '
-                  'deterministic families for input classes the random stream cannot reach.',
+                  'specification evaluated by Coq on the implementation\'s tables on every case, PlottableProgram as a second '
+                  'table player on every accepted case, random stream + 14 deterministic families for input classes the '
+                  'random stream cannot reach (round 4: same source on both outputs, repeats vs limits, near-integer '
+                  'lengths, joined measurements, volatile trees compiled twice).',
     'level_note': 'Trusted: Coq kernel, harness, numpy float exactness on dyadic inputs, Waveform equality classes and '
                   'get_sampled (inputs of the model / compared through the spec; hypothesis of C16_plays: equal class '
                   '=> equal data, exact sample counts), affine voltage transformations only; volatile counts are a '
